@@ -112,9 +112,25 @@ Fixpoint dstate (d : dns) (es : list dev) : dns :=
   | e :: r => dstate (fst (dstep d e)) r
   end.
 
-Definition drun_enc (v6 : bool) (es : list dev) : list (list N) :=
-  drun (dinit (if v6 then V6 else V4)) es.
+(* Plain-data encoding for the correspondence: an address is printed as four
+   32-bit chunks (printing 128-bit numerals is slow), a reverse-lookup result
+   as it is. *)
+Definition enc_addr (a : N) : list N :=
+  [a / (two32 * two32 * two32); (a / (two32 * two32)) mod two32; (a / two32) mod two32; a mod two32].
+
+Definition mk_addr (a b c d : N) : N := ((a * two32 + b) * two32 + c) * two32 + d.
+
+Fixpoint drun_out (d : dns) (es : list dev) : list (list (list N)) :=
+  match es with
+  | [] => []
+  | e :: r =>
+      let '(d', o) := dstep d e in
+      (match e with DReverse _ => [o] | _ => map enc_addr o end) :: drun_out d' r
+  end.
+
+Definition drun_enc (v6 : bool) (es : list dev) : list (list (list N)) :=
+  drun_out (dinit (if v6 then V6 else V4)) es.
 
 (* registering the fresh names 0 .. n-1 in order, evaluated without building
    the intermediate states (used for the subnet-size witness) *)
-Definition nth_fresh_addr (v : ipver) (k : N) : N := addr_of v ((1 + k) mod wrap_of v).
+Definition nth_fresh_addr (v : ipver) (k : N) : list N := enc_addr (addr_of v ((1 + k) mod wrap_of v)).
